@@ -55,7 +55,8 @@ type fnCtx struct {
 
 type modItem struct {
 	lv      *LVal
-	allElems bool   // elems(s): all indexes of the backing array
+	allElems bool   // elems(s): the window [lo, hi) of the backing array (off .. off+cap)
+	lo, hi  string
 	comp    string // whole component
 	expr    string
 }
